@@ -44,6 +44,19 @@ Round 4:
                    relation by hand (monitor per-index, keys per-index/<entry>/...).
                    commute[pairwise] and BoundaryArc composites fired on the
                    pinned tree (F45, F46, repaired) and are part of the table.
+Round 5:
+  apply-special    apply in the three modes with composite transformations of
+                   special VALUES (stacks of exact identities by three routes,
+                   an identity among others, one matrix repeated, scalar,
+                   permutation): shape + per-index law (monitor apply-modes,
+                   operation names carry {class}).
+  second-arguments distance / unit_tangent_towards / point_along / isometry_to /
+                   angle between composites of different broadcastable shapes,
+                   interior size-1 axes included (monitor per-index, names
+                   carry [other-broadcast-to-self] / [two-way-broadcast]).
+  relatives        histories: relatives of a composite kept alive, item
+                   assignments into one of them, every live object re-examined
+                   unit by unit (monitor structure, keys structure/relatives/...).
 
 The axis order for pairwise is the one the property fixes (object axes first);
 the repository's two baseline-failing tests assume the opposite.
@@ -99,6 +112,12 @@ ASSUMPTIONS = [
     "not enforced, reported in findings/: commute(broadcast='pairwise') and composite "
     "BoundaryArc construction raise ValueError on the pinned tree; "
     "hyperbolic.spacelike reduces to one scalar",
+    "second arguments of other shapes: unit_tangent_towards / point_along / angle are "
+    "driven only with a second argument that broadcasts to the shape of self (they raise "
+    "when self would have to be broadcast up); distance and isometry_to both ways; "
+    "Segment / TangentVector constructors do not broadcast their two arguments",
+    "relatives: each live object is judged against units rebuilt from the primary data "
+    "it holds at that moment; that relatives do not share primary data is not demanded",
     "generic objects with per-instance ranks are judged through apply and "
     "flatten_to_unit only (reshape / __getitem__ / stacking of such objects go "
     "through the class constructor, whose rank arguments are the caller's)",
@@ -362,24 +381,36 @@ def wl_apply_modes(run, rng, idx):
     hyp = G.KINDS[kind][1]
     tkind = "H.Isometry" if hyp else "P.Transformation"
     cx = (not hyp) and (idx % 5 == 4)
-    mon = run.monitor("apply-modes")
     try:
-        want_shape = rp.result_shape(oshape, tshape, mode)
+        rp.result_shape(oshape, tshape, mode)
     except ValueError:
         # not broadcastable: substitute the transformation shape by one that is
         tshape = oshape[-1:] if oshape else ()
-        want_shape = rp.result_shape(oshape, tshape, mode)
     raw = G.draw(rng, kind, n, oshape, cx=cx)
     traw = G.draw(rng, tkind, n, tshape, cx=cx)
+    _apply_case(run, idx, kind, tkind, n, oshape, tshape, mode, raw, traw, cx)
+
+
+def _apply_case(run, idx, kind, tkind, n, oshape, tshape, mode, raw, traw, cx,
+                optag="", T=None, extra=None):
+    """apply in one broadcast mode: class, shape, every entry against the unit
+    call and against x_i @ M_j by hand.  optag: input-class suffix of the
+    operation name (mechanism keys); T: the transformation object when it was
+    not built from `traw` by the usual constructor."""
+    mon = run.monitor("apply-modes")
+    want_shape = rp.result_shape(oshape, tshape, mode)
     case = {"kind": kind, "dimension": n, "object_shape": list(oshape),
             "transformation_shape": list(tshape), "broadcast": mode, "raw": raw,
             "transformation": traw}
+    if extra:
+        case.update(extra)
     run.current_case = case
     X = G.build(kind, raw)
-    T = G.build(tkind, traw)
+    if T is None:
+        T = G.build(tkind, traw)
     Y = T.apply(X, broadcast=mode)
-    J = Judge(run, "apply-modes", "apply[%s]" % mode, (kind,), case)
-    sig = ("apply", kind, n, oshape, tshape, mode, "complex" if cx else "real")
+    J = Judge(run, "apply-modes", "apply[%s]%s" % (mode, optag), (kind,), case)
+    sig = ("apply" + optag, kind, n, oshape, tshape, mode, "complex" if cx else "real")
     if not mon.require(type(Y) is type(X), "apply-modes/class/%s" % mode,
                        "apply(%s) of %s returns %s" % (mode, type(X).__name__, type(Y).__name__), case):
         return
@@ -407,9 +438,90 @@ def wl_apply_modes(run, rng, idx):
                   what="apply[%s]: entry %r is not transformation %r applied to unit %r"
                   % (mode, ridx, ti, oi))
     run.note_class(*sig)
-    if idx < 3:
+    if idx < 3 and not optag:
         run.sample({"kind": kind, "dimension": n, "object_shape": list(oshape),
                     "transformation_shape": list(tshape), "broadcast": mode})
+
+
+# composite transformations with special VALUES.  A shortcut keyed on the value
+# of the whole array (``if (matrix == identity).all(): return data``, a
+# diagonal / permutation fast path, de-duplication of repeated matrices) skips
+# the funnel and with it the broadcasting: values stay right, the composite
+# shape of the transformation is lost.  Random generic stacks never take such a
+# path.  (seeded change C04-r5-1: identity fast path in _apply_to_data; a stack
+# of exact identities applied pairwise returned the object's own shape.)
+TRF_VALUE_CLASSES = ("all-identity", "identity-among", "repeated", "scalar", "permutation")
+IDENTITY_ROUTES = ("array", "empty-words", "stacked-identity-objects")
+
+
+def special_transformations(rng, tkind, n, tshape, tcls):
+    """raw input {"M": ...} (the kind's own convention) of a composite
+    transformation of the value class."""
+    hyp = tkind == "H.Isometry"
+    dim = n + 1
+    eye = np.broadcast_to(np.eye(dim), tuple(tshape) + (dim, dim)).copy()
+    if tcls == "all-identity":
+        return {"M": eye}
+    if tcls == "scalar":
+        c = -1.0 if hyp else float(rng.choice([-1.0, 2.0, 0.5]))
+        return {"M": c * eye}
+    if tcls == "permutation":
+        M = eye
+        for i in np.ndindex(*tshape):
+            perm = np.concatenate([[0], 1 + rng.permutation(n)]) if hyp else rng.permutation(dim)
+            M[i] = np.eye(dim)[perm]
+        return {"M": M}
+    gen = G.draw(rng, tkind, n, tshape)
+    if tcls == "repeated":
+        one = G.draw(rng, tkind, n, ())["M"]
+        return {"M": np.broadcast_to(one, tuple(tshape) + (dim, dim)).copy()}
+    # identity-among: one unit (every unit of a single transformation) exact identity
+    M = gen["M"]
+    M[tuple(int(rng.integers(s)) for s in tshape)] = np.eye(dim)
+    return {"M": M}
+
+
+def wl_apply_special(run, rng, idx):
+    """apply in the three modes with composite transformations that are stacks
+    of exact identities (three construction routes), contain an identity,
+    repeat one matrix, are scalar or permutation matrices."""
+    from geometry_tools import projective as P, hyperbolic as H
+    tcls = pick(TRF_VALUE_CLASSES, idx)
+    ki, oi_, ti_, mi = COMBOS[(idx * 7919 + 331) % len(COMBOS)]
+    kind = ALL_KINDS[ki]
+    oshape, tshape, mode = G.OBJ_SHAPES[oi_], G.TRF_SHAPES[ti_], rp.MODES[mi]
+    n = dims_for(kind, idx // 7 + idx)
+    hyp = G.KINDS[kind][1]
+    tkind = "H.Isometry" if hyp else "P.Transformation"
+    try:
+        rp.result_shape(oshape, tshape, mode)
+    except ValueError:
+        tshape = oshape[-1:] if oshape else ()
+    raw = G.draw(rng, kind, n, oshape)
+    traw = special_transformations(rng, tkind, n, tshape, tcls)
+    T, route = None, "array"
+    if tcls == "all-identity" and len(tshape) == 1:
+        route = pick(IDENTITY_ROUTES, idx // len(TRF_VALUE_CLASSES))
+        if route == "empty-words":
+            # images of the empty word under a representation
+            if hyp:
+                rep = H.HyperbolicRepresentation()
+                rep["a"] = G.build("H.Isometry", G.draw(rng, "H.Isometry", n, ()))
+                T = rep.isometries([""] * tshape[0])
+            else:
+                rep = P.ProjectiveRepresentation()
+                rep["a"] = G.build("P.Transformation", G.draw(rng, "P.Transformation", n, ()))
+                T = rep.transformations([""] * tshape[0])
+        elif route == "stacked-identity-objects":
+            one = H.identity(n) if hyp else P.identity(n)
+            T = type(one)([one] * tshape[0])
+        if T is not None and not (tuple(T.shape) == tuple(tshape) and
+                                  np.array_equal(np.asarray(T.proj_data, dtype=float), traw["M"])):
+            # the route did not give a stack of exact identities: not this class
+            run.monitor("apply-modes").skip("identity route %s gives other data" % route)
+            T, route = None, "array"
+    _apply_case(run, idx, kind, tkind, n, oshape, tshape, mode, raw, traw, False,
+                optag="{%s}" % tcls, T=T, extra={"transformation_class": tcls, "route": route})
 
 
 # ---------------------------------------------------------------------------
@@ -645,6 +757,122 @@ def wl_special_units(run, rng, idx):
     _points_case(run, rng, idx, n, shape, P, Q, scls, special=special,
                  optag="{%s}" % scls, tangent_domain=tangent_domain)
     run.note_class("special-units", scls, n, shape)
+
+
+# operations that take a second composite (or an array-valued parameter): the
+# two composite shapes need not be equal, only broadcastable, and the entry at a
+# broadcast index is the operation on the two units that NumPy broadcasting
+# pairs there.  Every way of bringing the second argument "to the shape of
+# self" other than broadcasting (np.resize, reshape, tile, ravel + repeat)
+# agrees with it for scalars, equal shapes and missing leading axes, and
+# differs as soon as a size-1 axis is not leading.  (seeded change C04-r5-2:
+# point_along np.resize'd the distances: (2, 1) distances against (2, 3)
+# vectors were cycled d0, d1, d0, ... instead of d0, d0, d0, d1, ...)
+# second argument broadcastable to the shape of self (all operations) ...
+PAIRS_TO_SELF = [((2, 3), (2, 1)), ((2, 3), (1, 3)), ((2, 3), (3,)), ((2, 1, 3), (2, 1, 1)),
+                 ((2, 2, 3), (2, 1)), ((2, 3), ()), ((3, 2), (3, 1)), ((2, 2, 3), (2, 1, 3)),
+                 ((2, 1, 3), (1, 3)), ((2, 3), (1, 1))]
+# ... and pairs in which self is broadcast up as well (operations that combine
+# the two symmetrically: distance, isometry_to)
+PAIRS_TWO_WAY = [((2, 1), (1, 3)), ((3,), (2, 3)), ((2, 1), (2, 3)), ((), (3,)),
+                 ((1, 3), (2, 1)), ((2, 1, 1), (3,))]
+SHAPE_PAIRS = [(a, b, False) for a, b in PAIRS_TO_SELF] + [(a, b, True) for a, b in PAIRS_TWO_WAY]
+
+
+def wl_second_arguments(run, rng, idx):
+    """distance, unit_tangent_towards, point_along, isometry_to, angle between
+    composites of different, broadcastable shapes (interior size-1 axes
+    included), entry by entry against the operation on the paired units."""
+    from geometry_tools import hyperbolic as H
+    s1, s2, two_way = pick(SHAPE_PAIRS, idx)
+    n = pick((2, 3, 2, 1, 4), idx // len(SHAPE_PAIRS))
+    want = tuple(np.broadcast_shapes(s1, s2))
+    pairs = list(rp.operand_indices(s1, s2, "elementwise"))
+
+    def bc(a, shp):
+        return np.broadcast_to(a, want + np.shape(a)[len(shp):])
+
+    for _ in range(100):
+        P, P2 = G.separated_pair(rng, n, s1, G.interior)
+        Q, Q2 = G.separated_pair(rng, n, s2, G.interior)
+        if np.all(rp.klein_sep(bc(P, s1), bc(Q, s2)) > 0.1):
+            break
+    dist = rng.uniform(-1.5, 1.5, size=s2)
+    case = {"dimension": n, "shape_self": list(s1), "shape_other": list(s2),
+            "P": P, "P2": P2, "Q": Q, "Q2": Q2, "distances": dist}
+    run.current_case = case
+    tag = "[%s]" % ("two-way-broadcast" if two_way else "other-broadcast-to-self")
+    sig = (n, s1, s2)
+    with np.errstate(all="ignore"):
+        kappa = float(max(np.max(1.0 / (1.0 - np.sum(rh.proj_to_klein(P) ** 2, axis=-1))),
+                          np.max(1.0 / (1.0 - np.sum(rh.proj_to_klein(Q) ** 2, axis=-1))), 1.0))
+    p, q = H.Point(P.copy()), H.Point(Q.copy())
+
+    def pt(A, i):
+        return H.Point(A[i].copy())
+
+    # distance
+    J = Judge(run, "per-index", "Point.distance" + tag, sig, case)
+    d = arr(p.distance(q))
+    if J.shape(d.shape, want):
+        for ridx, i1, i2 in pairs:
+            J.num("distance", d[ridx], arr(pt(P, i1).distance(pt(Q, i2))), ridx,
+                  tol=1e-7 + 1e-13 * kappa)
+    if n < 2:
+        run.note_class("second-arguments", *sig)
+        return
+    kt = TOL_PROJ * kappa
+    # tangent vectors of shape s1 (at P towards P2) and s2 (at Q towards Q2)
+    tv = p.unit_tangent_towards(H.Point(P2.copy()))
+    tw = q.unit_tangent_towards(H.Point(Q2.copy()))
+
+    def tvu(i1):
+        return pt(P, i1).unit_tangent_towards(pt(P2, i1))
+
+    def twu(i2):
+        return pt(Q, i2).unit_tangent_towards(pt(Q2, i2))
+
+    Ji = Judge(run, "per-index", "TangentVector.isometry_to" + tag, sig, case)
+    iso = tv.isometry_to(tw)
+    if Ji.shape(iso.shape, want):
+        for ridx, i1, i2 in pairs:
+            tu, wu = tvu(i1), twu(i2)
+            _isometry_per_index(run, Ji, iso.proj_data[ridx], tu.isometry_to(wu).proj_data, ridx,
+                                None, free=(n >= 3), src=tu.aux_data, dst=wu.aux_data,
+                                scale=kappa * kappa)
+    if not two_way:
+        J = Judge(run, "per-index", "Point.unit_tangent_towards" + tag, sig, case)
+        t2 = p.unit_tangent_towards(q)
+        if J.shape(t2.shape, want):
+            for ridx, i1, i2 in pairs:
+                tu = pt(P, i1).unit_tangent_towards(pt(Q, i2))
+                J.dev("primary", rp.tangent_dev(t2.proj_data[ridx], tu.proj_data), ridx, tol=kt)
+                J.dev("auxiliary", rp.tangent_dev(t2.aux_data[ridx], tu.aux_data,
+                                                  project=(False, False)), ridx, tol=kt)
+        Jp = Judge(run, "per-index", "TangentVector.point_along" + tag, sig, case)
+        along = tv.point_along(dist.copy() if s2 else float(dist))
+        if Jp.shape(along.shape, want):
+            for ridx, i1, i2 in pairs:
+                Jp.dev("array-distance", rp.max_row_dev(
+                    along.proj_data[ridx], tvu(i1).point_along(float(dist[i2])).proj_data),
+                    ridx, tol=kt)
+                # by hand: the point at the signed distance from the base point
+                with np.errstate(all="ignore"):
+                    dd = float(rh.dist_proj(along.proj_data[ridx], P[i1]))
+                Jp.dev("distance-travelled", abs(dd - abs(float(dist[i2]))), ridx,
+                       tol=1e-6 * kappa, unitdesc="by-hand",
+                       what="point_along: entry %r is not at distance |d[%r]| from base point %r"
+                       % (ridx, i2, i1))
+        Ja = Judge(run, "per-index", "TangentVector.angle" + tag, sig, case)
+        ang = arr(tv.angle(tw))
+        if Ja.shape(ang.shape, want):
+            for ridx, i1, i2 in pairs:
+                au = arr(tvu(i1).angle(twu(i2)))
+                if not (1e-2 < float(au) < np.pi - 1e-2):
+                    Ja.mon.skip("nearly parallel tangent vectors (arccos ill-conditioned)")
+                    continue
+                Ja.num("angle", ang[ridx], au, ridx, tol=1e-6 * kappa)
+    run.note_class("second-arguments", *sig)
 
 
 def _isometry_per_index(run, J, Mc, Mu, i, frame, free, src=None, dst=None, scale=1.0):
@@ -1276,6 +1504,141 @@ def wl_entry_points(run, rng, idx):
     run.note_class("entry-points", name, n, shape, *spec.sig)
 
 
+# ---------------------------------------------------------------------------
+# histories: the per-index law holds of every composite that is alive
+
+# "Indexing preserves the units" is claimed of a composite for as long as it
+# lives, not only right after it was built: objects derived from it
+# (flatten_to_unit, reshape, Class(X), astype, X[:]) are independent composites,
+# and an item assignment into one of them must leave every other one a
+# composite of ITS units -- derived data included, which the derivations are
+# free to share as long as nobody writes into the shared array.  Judged for
+# each live object against the units rebuilt from the primary data that object
+# holds at that moment.  (seeded change C04-r5-3: __setitem__ refreshed the
+# auxiliary data of the assigned units in place; X.flatten_to_unit() and
+# Class(X) share that array with X, so after Y[j] = unit the edges / ideal
+# endpoints / projected vector of X at that index were those of the new unit
+# while X's vertices were unchanged: X.get_edges()[i] != X[i].get_edges().)
+RELATIVE_KINDS = ["H.Polygon", "H.Segment", "H.TangentVector", "P.Polygon",
+                  "H.Point", "H.Geodesic", "P.PointPair"]
+RELATIVES = ["original", "flatten_to_unit", "construct", "reshape", "astype", "getitem"]
+KEYKINDS = ["index", "row-or-slice", "mask", "negative-index"]
+
+
+def _kind_queries(kind, o):
+    """aux-based public queries of a composite, as {name: (array, rule)}."""
+    if kind in ("H.Polygon", "P.Polygon"):
+        return {"get_edges": (o.get_edges().proj_data, "rows")}
+    if kind == "H.Segment":
+        return {"ideal_endpoint_coords": (o.ideal_endpoint_coords("klein"), "num"),
+                "geodesic": (o.geodesic().proj_data, "rows")}
+    if kind == "H.TangentVector":
+        return {"vector": (np.stack([o.point, o.vector], axis=-2), "tangent-raw")}
+    return {}
+
+
+def wl_relatives(run, rng, idx):
+    """composite -> relatives (all kept alive) -> item assignments into one of
+    them (integer / row or slice / mask / negative keys; the value an object or
+    a raw array) -> every live object re-examined unit by unit."""
+    kind = pick(RELATIVE_KINDS, idx)
+    shape = pick([(2, 3), (4,), (3, 2)], idx // len(RELATIVE_KINDS))
+    n = dims_for(kind, idx // 5, hi=3)
+    mon = run.monitor("structure")
+    nv = 3 + idx % 3
+    cls = G.class_of(kind)
+    auxk = G.KINDS[kind][3]
+    raw = G.draw(rng, kind, n, shape, nv=nv)
+    X = G.build(kind, raw)
+    new_shape = {(2, 3): (3, 2), (4,): (2, 2), (3, 2): (6,)}[shape]
+    live = {"original": X, "flatten_to_unit": X.flatten_to_unit(), "construct": cls(X),
+            "reshape": X.reshape(new_shape), "astype": X.astype("float64"), "getitem": X[:]}
+    case = {"kind": kind, "dimension": n, "shape": list(shape), "raw": raw,
+            "history": ["derive " + ", ".join(RELATIVES[1:])]}
+    run.current_case = case
+
+    def examine(role, name, when):
+        """the per-index law on one live object, against units rebuilt from the
+        primary data it holds now."""
+        o = live[name]
+        what = "%s (%s) %s" % (name, role, when)
+        ok, q = True, _kind_queries(kind, o)
+        for i in np.ndindex(*o.shape):
+            u = cls(np.array(o.proj_data[i], copy=True))
+            c = dict(case, examined=what, index=list(i))
+            if auxk is not None:
+                ok = mon.judge(G.compare_aux(kind, o.aux_data[i], u.aux_data), 1e-8,
+                               "structure/relatives/derived-data/%s" % role,
+                               "%s: the derived data at %r is not that of the unit the object "
+                               "holds there" % (what, i), c) and ok
+            qu = _kind_queries(kind, u)
+            for part, (a, rule) in q.items():
+                ok = mon.judge(_entry_dev(rule, np.asarray(a)[i], qu[part][0]), 1e-7,
+                               "structure/relatives/%s/%s" % (part, role),
+                               "%s: %s()[%r] differs from %s of the unit at that index"
+                               % (what, part, i, part), c) and ok
+            if not ok:
+                break
+        return ok
+
+    for name in live:
+        examine("original" if name == "original" else "relative", name, "before any assignment")
+    for rnd in (1, 2):
+        tname = pick(RELATIVES, idx // 2 + (rnd - 1) * (1 + idx // 6) + (1 if rnd == 1 else 0))
+        target = live[tname]
+        tshape = tuple(target.shape)
+        keykind = pick(KEYKINDS, idx // 3 + rnd)
+        if keykind in ("index", "negative-index"):
+            key = tuple(int(rng.integers(m)) for m in tshape)
+            where = [key]
+            if keykind == "negative-index":
+                key = tuple(k - m for k, m in zip(key, tshape))
+            key = key[0] if len(key) == 1 else key
+            vshape = ()
+        elif keykind == "row-or-slice":
+            if len(tshape) == 1:
+                a = int(rng.integers(0, tshape[0] - 1))
+                b = int(rng.integers(a + 1, tshape[0] + 1))
+                key, vshape = slice(a, b), (b - a,)
+                where = [(k,) for k in range(a, b)]
+            else:
+                r = int(rng.integers(tshape[0]))
+                key, vshape = r, tshape[1:]
+                where = [(r,) + j for j in np.ndindex(*tshape[1:])]
+        else:
+            mask = rng.random(tshape) < 0.4
+            mask.flat[int(rng.integers(mask.size))] = True
+            key, vshape = mask, (int(np.sum(mask)),)
+            where = [tuple(int(x) for x in w) for w in np.argwhere(mask)]
+        vraw = G.draw(rng, kind, n, vshape, nv=nv)
+        value = G.build(kind, vraw)
+        as_array = (idx + rnd) % 2 == 1
+        before = np.array(target.proj_data, copy=True)
+        case["history"].append("%s[%s key %s] = %s of shape %r" % (
+            tname, keykind, key.tolist() if isinstance(key, np.ndarray) else repr(key),
+            "array" if as_array else type(value).__name__, vshape))
+        case["assigned_%d" % rnd] = vraw
+        vprim = np.array(value.proj_data, copy=True)
+        target[key] = vprim.copy() if as_array else value
+        # the target holds the new units where assigned, its old ones elsewhere
+        vflat = vprim.reshape((-1,) + vprim.shape[len(vshape):])
+        for k, w in enumerate(where):
+            mon.judge(G.compare_primary(kind, target.proj_data[w], vflat[k]), 1e-9,
+                      "structure/relatives/__setitem__/assigned-unit",
+                      "%s[%s key] = value: the unit at %r is not the assigned one" % (tname, keykind, w),
+                      dict(case, index=list(w)))
+        for w in np.ndindex(*tshape):
+            if w not in where:
+                mon.judge(G.compare_primary(kind, target.proj_data[w], before[w]), 1e-12,
+                          "structure/relatives/__setitem__/other-unit-moved",
+                          "%s[%s key] = value changed the unit at %r" % (tname, keykind, w),
+                          dict(case, index=list(w)))
+        for name in live:
+            role = "target" if name == tname else ("original" if name == "original" else "relative")
+            examine(role, name, "after assignment %d (into %s)" % (rnd, tname))
+        run.note_class("relatives", kind, shape, tname, keykind, "array" if as_array else "object")
+
+
 def _reshapes(shape):
     total = int(np.prod(shape))
     out = [(total,), (1, total), (total, 1)]
@@ -1289,6 +1652,7 @@ def _reshapes(shape):
 
 WORKLOADS = [
     Workload("apply-modes", wl_apply_modes, quick=700, thorough=9000),
+    Workload("apply-special", wl_apply_special, quick=200, thorough=3000),
     Workload("points", wl_points, quick=160, thorough=3200),
     Workload("construct", wl_construct, quick=260, thorough=4000),
     Workload("circles", wl_circles, quick=160, thorough=2400),
@@ -1298,5 +1662,7 @@ WORKLOADS = [
     Workload("layouts", wl_layouts, quick=84, thorough=1600),
     Workload("generic-ranks", wl_generic_ranks, quick=120, thorough=2400),
     Workload("special-units", wl_special_units, quick=48, thorough=960),
+    Workload("second-arguments", wl_second_arguments, quick=64, thorough=1280),
     Workload("entry-points", wl_entry_points, quick=240, thorough=4800),
+    Workload("relatives", wl_relatives, quick=84, thorough=1680),
 ]
